@@ -319,6 +319,37 @@ Proof.
   - destruct (IH _ H) as (a & ga & j & Ha & Hj & Hs'). exists a, ga, j. split; [right; auto|split; auto].
 Qed.
 
+Lemma try_alt_found a ga fuel ix caps s' :
+  first_some (fun j => first_ending (sem cx a fuel ga (j, caps)) ix) (backs cx ix ix) = Some s' ->
+  exists j, In j (backs cx ix ix) /\ In s' (sem cx a fuel ga (j, caps)).
+Proof.
+  induction (backs cx ix ix) as [|j l IH]; cbn [first_some]; [discriminate|].
+  destruct (first_ending (sem cx a fuel ga (j, caps)) ix) as [s2|] eqn:E.
+  - intros H; inversion H; subst. unfold first_ending in E. apply find_some in E.
+    exists j. split; [left; auto|apply E].
+  - intros H. destruct (IH H) as (j' & Hj & Hs'). exists j'. split; [right; auto|auto].
+Qed.
+
+Lemma split_in fuel ix caps : forall es g st',
+  In st' ((fix go (g : nat) (l : list expr) : list sst :=
+             match l with
+             | [] => []
+             | x :: r =>
+                 match first_some (fun j => first_ending (sem cx x fuel g (j, caps)) ix) (backs cx ix ix) with
+                 | Some s => [(ix, snd s)]
+                 | None => []
+                 end ++ go (g + ngroups x) r
+             end) g es) ->
+  exists x gx s, In x es /\
+    first_some (fun j => first_ending (sem cx x fuel gx (j, caps)) ix) (backs cx ix ix) = Some s /\
+    st' = (ix, snd s).
+Proof.
+  induction es as [|x r IH]; intros g st' H; [destruct H|]. apply in_app_or in H. destruct H as [H|H].
+  - destruct (first_some _ _) as [s|] eqn:E; [|destruct H]. destruct H as [<-|[]].
+    exists x, g, s. split; [left; auto|split; auto].
+  - destruct (IH _ _ H) as (y & gy & s & Hy & Hf & ->). exists y, gy, s. split; [right; auto|split; auto].
+Qed.
+
 Lemma sem_sound_aux : forall e, SG e /\ Forall SG (alts_of e).
 Proof.
   induction e using expr_ind'.
@@ -433,7 +464,19 @@ Proof.
       destruct Hin as [<-|[]]. apply Hzero. apply Hs.
     + cbn [sem] in Hin.
       match type of Hin with In _ (match ?f with _ => _ end) => destruct f as [s2|] eqn:Ef end;
-        [|destruct Hin]. destruct Hin as [<-|[]]. apply Hzero. apply (Hbehind s2). reflexivity.
+        [|destruct Hin].
+      destruct (is_alt e && negb (const_size e)) eqn:Esp.
+      * destruct e; try discriminate.
+        apply split_in in Hin. destruct Hin as (x & gx & s & Hx & Hf & ->). apply Hzero.
+        destruct (try_alt_found _ _ _ _ _ _ Hf) as (j & Hj & Hs').
+        pose proof (backs_ok ix ix (proj1 Hs)) as Hb. rewrite Forall_forall in Hb.
+        assert (Hjs : st_ok (j, caps)) by (split; [apply Hb; auto|apply Hs]).
+        rewrite Forall_forall in IHalts. cbn [alts_of] in IHalts.
+        assert (Hwx : wfe x).
+        { rewrite wfe_alt in Hw. clear - Hw Hx. induction es as [|y l IH]; [destruct Hx|]. destruct Hw as [H1 H2].
+          destruct Hx as [<-|Hx]; auto. }
+        destruct (IHalts x Hx Hwx _ _ _ _ Hjs Hs') as (n & [[_ Hc'] _] & _). exact Hc'.
+      * destruct Hin as [<-|[]]. apply Hzero. apply (Hbehind s2). reflexivity.
     + cbn [sem] in Hin.
       match type of Hin with In _ (match ?f with _ => _ end) => destruct f as [s2|] eqn:Ef end;
         [destruct Hin|]. destruct Hin as [<-|[]]. apply Hzero. apply Hs.
